@@ -35,5 +35,8 @@ mk(B,'b40_range_excl_no_skip','C05',MQ,'.map(|idx| idx + 1)','.map(|idx| idx)','
 mk(B,'b41_range_payload_end','C05',MQ,'let payload = if let Some(next_record_meta) = self.record_metas.get(idx + 1) {\n                    let end_offset','let payload = if let Some(next_record_meta) = self.record_metas.get(idx + 2) {\n                    let end_offset','range: payload runs to the start of the record after the next one')
 mk(B,'b42_range_stop_early','C05',MQ,'(start_idx..self.record_metas.len())','(start_idx..self.record_metas.len().saturating_sub(1))','range never delivers the last retained record')
 mk(G,'g11_range_pred_local','-',MQ,'.take_while(move |idx| range.contains(&self.record_metas[*idx].position))','.take_while(move |idx| { let position = self.record_metas[*idx].position; range.contains(&position) })','range predicate through a local')
+FN='src/rolling/file_number.rs'
+mk(B,'b43_inc_reuses_curr','C07 C06',FN,'let new_number = *curr.file_number + 1u64;','let new_number = *curr.file_number;','roll-over re-creates the current file number instead of the next one')
+mk(G,'g12_inc_plus_two','-',FN,'let new_number = *curr.file_number + 1u64;','let new_number = *curr.file_number + 2u64;','a gap in file numbers is allowed (C17)')
 shutil.rmtree(W, ignore_errors=True)
 subprocess.run(['git','-C','/repo','worktree','prune'],check=True)
